@@ -37,7 +37,7 @@ package keeper
 //@             !(bMemberHas(Store_bandtss, idleMembers[j], signing.GroupID) && bMemberAt(Store_bandtss, idleMembers[j], signing.GroupID).IsActive)
 
 // ---- C13 / C18: completion callback ------------------------------------------------------------------
-//@ spec payAll(b BankState, ms []sdk.AccAddress, k Int, fee sdk.Coins) BankState = k <= 0 ? b : types.bankM2A(payAll(b, ms, k - 1, fee), types.ModuleName, ms[k-1], fee)
+//@ spec payAll(b BankState, ms []sdk.AccAddress, k Int, fee sdk.Coins) BankState = k <= 0 ? b : bankM2A(payAll(b, ms, k - 1, fee), types.ModuleName, ms[k-1], fee)
 
 //@ func (k Keeper) AddMembers
 //@ trusted
@@ -94,7 +94,7 @@ package keeper
 //@     (forall i :: 0 <= i && i < len(old(signFee(Store_bandtss, Other))) ==>
 //@         old(signFee(Store_bandtss, Other))[i].Amount <= ext("Coins.AmountOf", feeLimit, old(signFee(Store_bandtss, Other))[i].Denom))
 //@ ensures err == nil && addrstr(sender) != k.authority && old(curGroup(Store_bandtss)) != 0 ==>
-//@     Bank == types.bankA2M(old(Bank), sender, types.ModuleName, old(signFee(Store_bandtss, Other)))
+//@     Bank == bankA2M(old(Bank), sender, types.ModuleName, old(signFee(Store_bandtss, Other)))
 //@ ensures (addrstr(sender) == k.authority || old(curGroup(Store_bandtss)) == 0) ==> Bank == old(Bank)
 //@ loop 0: invariant forall j :: 0 <= j && j < #i ==> totalFee[j].Amount <= ext("Coins.AmountOf", feeLimit, totalFee[j].Denom)
 
